@@ -18,8 +18,15 @@ def run_command(cmd, cli, userfile=None):
     args = collections.ChainMap(dict(cli), dict(userfile or {}), defaults)
     captured = {}
 
+    orig_rs = OFXClient.request_statements
+
     def fake_rs(self, password, *rqs, **kw):
         captured["rqs"] = rqs; captured["kw"] = kw; captured["client"] = self
+        try:
+            # ... and what the client then composes from them (dry run: nothing is sent)
+            captured["composed"] = orig_rs(self, password, *rqs, **{**kw, "dryrun": True}).read()
+        except Exception as ex:
+            captured["composed"] = ex
         return io.BytesIO(b"response")
     with patch.object(OFXClient, "request_statements", fake_rs), patch("builtins.print"), \
             patch("ofxtools.scripts.ofxget.get_passwd", lambda a: "secret"):
@@ -65,6 +72,25 @@ def check_configured(it, fn, a):
     c = cap["client"]
     if c.bankid != "B-1" or c.brokerid != "BR-2" or c.url != "https://ofx.example.com" or c.userid != "porkypig":
         problems.append("client identity")
+    # the request as composed: the include flags asked for on the command line are the ones that go out
+    comp = cap.get("composed")
+    if isinstance(comp, Exception):
+        problems.append(f"composing the request failed: {type(comp).__name__}: {comp}")
+    elif comp is not None and rqs:
+        from ofxtools.Parser import OFXTree
+        t = OFXTree(); t.parse(io.BytesIO(comp)); ofx = t.convert()
+        if cmd == "request_stmt":
+            for w in (ofx.invstmtmsgsrqv1 or []):
+                b = w.invstmtrq
+                got_f = {"inctran": b.inctran is not None and b.inctran.include, "incoo": b.incoo, "incpos": b.incpos is not None and b.incpos.include, "incbal": b.incbal}
+                for fl, v in got_f.items():
+                    if bool(v) != bool(args[fl]):
+                        problems.append(f"investment request for {b.invacctfrom.acctid} goes out with {fl}={v}, asked {args[fl]}")
+            for ms, attr, sub in ((ofx.bankmsgsrqv1, "stmtrq", "bankacctfrom"), (ofx.creditcardmsgsrqv1, "ccstmtrq", "ccacctfrom")):
+                for w in (ms or []):
+                    b = getattr(w, attr, None)
+                    if b is not None and b.inctran is not None and bool(b.inctran.include) != bool(args["inctran"]):
+                        problems.append(f"{attr} goes out with inctran={b.inctran.include}, asked {args['inctran']}")
     return problems
 
 
@@ -150,12 +176,15 @@ def check_all(it, fn, a):
         problems.append(f"requested {got}; ACTIVE accounts listed by the server {sorted(want)}")
     # the discovered accounts are requested at the bank / broker the server named for them
     c = cap.get("client")
-    if c is not None and not userfile:
+    if c is not None:
         if any(w[0] in ("StmtRq", "StmtEndRq") for w in want) and c.bankid != "111000614":
             problems.append(f"bank accounts discovered at bank id 111000614 are requested with bank id {c.bankid!r}")
         if any(w[0] == "InvStmtRq" for w in want) and c.brokerid != "broker.example.com":
             problems.append(f"investment accounts discovered at broker.example.com are requested with broker id {c.brokerid!r}")
     return problems
+
+
+from contracts.spec.ofxget import configured_type_without_active, TYPE_OF
 
 
 def cases_all(tier):
@@ -171,6 +200,21 @@ def cases_all(tier):
             rng.shuffle(infos)
         for cmd in ("request_stmt", "request_stmtend"):
             out.append([cmd, infos, rng.random() < 0.5, {}])
+    # the configuration file already lists accounts (older, partly no longer active ones): with --all the accounts the
+    # server reports ACTIVE are what is requested, for every type the server reports on
+    for _ in range(60 if tier == "thorough" else 24):
+        k = rng.randint(2, 6)
+        infos = [(kd, ac, tp, rng.choice(["ACTIVE", "ACTIVE", "AVAIL", "PEND"])) for kd, ac, tp in rng.sample(pool, k)]
+        uf = {}
+        for kd, ac, tp, stt in infos:
+            t = TYPE_OF.get(tp) if kd == "bank" else ("creditcard" if kd == "cc" else "investment")
+            uf.setdefault(t, [])
+            if rng.random() < 0.7:
+                uf[t].append(ac if rng.random() < 0.5 else "9" + ac)
+        uf = {t: v for t, v in uf.items() if v}
+        uf.update({"bankid": "OLDBANK", "brokerid": "old.example"} if rng.random() < 0.5 else {})
+        for cmd in ("request_stmt", "request_stmtend"):
+            out.append([cmd, infos, rng.random() < 0.5, uf])
     # a configured (possibly inactive) account of a type for which the server lists no ACTIVE account
     out.append(["request_stmt", [("bank", "1001", "CHECKING", "ACTIVE"), ("bank", "999", "SAVINGS", "AVAIL")], False, {"savings": ["999"]}])
     # no ACTIVE bank account at all
@@ -190,7 +234,7 @@ CONTRACTS = [
              props=["C19"]),
     Contract("ofxtools.scripts.ofxget:_merge_acctinfo", args=[A_("cmd"), A_("infos"), A_("per_acctinfo"), A_("userfile")], call=check_all,
              ensures=[("exactly-the-ACTIVE-accounts", "result == []")], cases=cases_all, native_only=True, shards=8,
-             kf=[("KF-C19-all-configured-inactive", "bool(userfile)")],
+             kf=[("KF-C19-all-configured-inactive", "spec.ofxget.configured_type_without_active(infos, userfile)")],
              notes="--all: sampled account-information responses (1-6 accounts of bank/credit-card/investment kind, any service status, grouped in one ACCTINFO or one per account, in any order)",
              props=["C19"]),
 ]
